@@ -255,7 +255,7 @@ def campaign(res, want, ncases, corpus_dir):
             return c is not None or o != common.driver("tls", sub)
         small = common.ddmin(ops, differs)
         p = common.write_replay(res.pid, "disagreement.ops", "\n".join(small) + "\n")
-        res.brk("correspondence", "model `mythdrv tls` and harness/tls_unit.c disagree at line %d: impl=%r model=%r %s (minimised ops in %s)" % (j, a, b, crash or "", p))
+        res.brk("correspondence", "model `drv_tls` and harness/tls_unit.c disagree at line %d: impl=%r model=%r %s (minimised ops in %s)" % (j, a, b, crash or "", p))
 
 
 def replay(pid, path, want):
